@@ -196,7 +196,8 @@ def composite_cases(rng, ntab, per_table=8, tag="wc", argmasks=None, modes_f=(4,
     from . import gen_table as G
     cases = []
     for i in range(ntab):
-        t = G.gen_table(rng, "composite" if i % 4 else "f0", per_stage=(0, 2), biased=(i % 2 == 0), context=(i % 3 == 1))
+        t = G.gen_table(rng, "composite" if i % 4 else "f0", per_stage=(0, 2), biased=(i % 2 == 0), context=(i % 3 == 1),
+                         caps=(i % 5 == 2))
         tn = "%s%d.ctb" % (tag, i)
         ops = ["DUMP %s" % tn]
         lit_c, lit_d = pass_literals(t)
@@ -213,6 +214,12 @@ def composite_cases(rng, ntab, per_table=8, tag="wc", argmasks=None, modes_f=(4,
             cs = [c for c in t.chars() if c != 0x20] or [0x61]
             pol = [rng.choice(cs) for _ in range(40)]
             ops.append("FWD %s 0 200 - 1 %s %s -" % (tn, common.wide(pol), common.wide([rng.choice([0x1000, 0x1000, 0x0800])] * 40)))
+        # a literal of a (lengthening) correct rule several times over: the text the main pass sees is then much longer than
+        # what the caller passed
+        reps = [l for l in lit_c if l]
+        if reps:
+            lr = (list(rng.choice(reps)) * 8)[:24]
+            ops.append("FWD %s %d %d - 12 %s - -" % (tn, rng.choice(modes_f), 8 * len(lr) + 40, common.wide(lr)))
         for _ in range(per_table):
             u = [c for c in mix(lit_c, lambda: (G.rand_text_rules(rng, t, 4) if rng.random() < 0.5 else G.rand_text(rng, t, 3, undefined=0.04))) if c]
             n = len(u)
